@@ -24,20 +24,30 @@ def check(F, R, tier):
         R.missing('ClientSharedState::send_request')
         return
     f = cs[0]
-    prep = f.calls(r'::prepare_channel_to_receive_responses$')
+    # the response channel is bound to (channel_id, request_id) by response_receiver.set_channel_state(..) - directly in send_request or
+    # through a private helper that forwards its parameters (the helper may be inlined / renamed without changing behaviour)
+    opened = []   # (site in send_request, channel operand, request operand)
+    for c in f.calls(r'::set_channel_state$'):
+        if 'response_receiver' in f.chain(c.args[0]):
+            opened.append((c, c.args[1], c.args[2]))
+    for c in f.sites:
+        if not (c.is_call and c.callee and c.callee.startswith('iceoryx2::port::client::')):
+            continue
+        g = F.fn_opt(c.callee)
+        if g is None:
+            continue
+        for sc in g.calls(r'::set_channel_state$'):
+            pa, pb = g.prov_operand(sc.args[1]), g.prov_operand(sc.args[2])
+            if pa.root[0] == 'arg' and pb.root[0] == 'arg' and not pa.path and not pb.path and 'response_receiver' in g.chain(sc.args[0]):
+                opened.append((c, c.args[pa.root[1] - 1], c.args[pb.root[1] - 1]))
+                R.ob('FLOW', 'FLOW::%s::forwards-ids' % fnkey(g), True, 'helper forwards its parameters %d, %d to response_receiver.set_channel_state' % (pa.root[1], pb.root[1]), sc.where, g)
     de = f.calls(r'Sender::<.*>::deliver_offset$')
-    dom(R, f, prep, de, 'open-response-channel<deliver_offset', 'no server can answer into a channel that is not yet bound to this request')
-    for p in prep:
-        a1, a2 = sym_nstr(sym(f, p.args[1])), sym_nstr(sym(f, p.args[2]))
-        R.ob('FLOW', 'FLOW::%s::channel-opened-with-own-ids' % fnkey(f), a1 == 'channel_id' and a2 == 'request_id', 'prepare_channel_to_receive_responses(%s, %s)' % (a1, a2), p.where, f)
-    pc = F.find_fns(r'^iceoryx2::port::client::ClientSharedState::<.*>::prepare_channel_to_receive_responses$')
-    if len(pc) == 1:
-        g = pc[0]
-        sc = g.calls(r'::set_channel_state$')
-        R.ob('FLOW', 'FLOW::%s::forwards-ids' % fnkey(g), len(sc) == 1 and sym_nstr(sym(g, sc[0].args[1])) == 'channel_id' and sym_nstr(sym(g, sc[0].args[2])) == 'request_id' and 'response_receiver' in g.chain(sc[0].args[0]),
-             'response_receiver.set_channel_state(channel_id, request_id)', sc[0].where if sc else g.file, g)
-    else:
-        R.missing('prepare_channel_to_receive_responses')
+    dom(R, f, [o[0] for o in opened], de, 'open-response-channel<deliver_offset', 'no server can answer into a channel that is not yet bound to this request')
+    for (c, ca, ra) in opened:
+        pa, pb = f.prov_operand(ca), f.prov_operand(ra)
+        ok = pa.root[0] == 'arg' and pb.root[0] == 'arg' and pa.root[1] != pb.root[1] and not pa.path and not pb.path
+        R.ob('FLOW', 'FLOW::%s::channel-opened-with-own-ids' % fnkey(f), ok, 'the channel is opened with send_request\'s own parameters (%s, %s)' % (pa.render(), pb.render()), c.where, f)
+    R.floor('sites binding the response channel in send_request', len(opened), 1)
     # RequestMut::send passes its own channel id and header request id
     rs = [c for c in F.find_fns(r'^iceoryx2::request_mut::RequestMut::<.*>::send::\{closure#0\}$')]
     n = 0
